@@ -23,6 +23,7 @@ import (
 	"fmt"
 	"io/ioutil"
 	"net/url"
+	"strings"
 	"sync/atomic"
 
 	"github.com/golang/snappy"
@@ -142,7 +143,7 @@ func (a *adapter) Header(
 ) error {
 	if !a.isEnabled() {
 		for _, h := range headers {
-			if h.Name == "content-type" && h.Value == "application/grpc" {
+			if h.Name == "content-type" && isGRPCContentType(h.Value) {
 				atomic.StoreInt32(a.enabled, 1)
 				break
 			}
@@ -260,6 +261,17 @@ func (a *adapter) RSTStream(errCode http2.ErrCode) error {
 
 func (a *adapter) PushPromise(promiseID uint32, headers []hpack.HeaderField) error {
 	return a.sink.PushPromise(promiseID, headers)
+}
+
+// isGRPCContentType reports whether v is "application/grpc", optionally followed by a "+proto",
+// "+json" or custom subtype suffix or by media type parameters. See Content-Type entry at:
+// https://github.com/grpc/grpc/blob/master/doc/PROTOCOL-HTTP2.md#requests
+func isGRPCContentType(v string) bool {
+	const base = "application/grpc"
+	if !strings.HasPrefix(v, base) {
+		return false
+	}
+	return len(v) == len(base) || v[len(base)] == '+' || v[len(base)] == ';'
 }
 
 func (a *adapter) isEnabled() bool {
